@@ -181,11 +181,6 @@ def cbmc_assignment(overlay, name, reasons, timeout_s, mem_gb, log_path):
             return []
     except (OSError, KeyError, ValueError):
         return []
-    cmd = ["cbmc"] + CBMC_FLAGS
-    uw = (h.get("attributes") or {}).get("unwind_value")
-    if uw:
-        cmd += ["--unwind", str(uw)]
-    cmd += [binf, "--trace", "--compact-trace"]
     env = _env()
     env["PATH"] = os.path.expanduser("~/.kani/kani-0.68.0/bin") + os.pathsep + env.get("PATH", "")
     lim = int(mem_gb * (1 << 30))
@@ -193,6 +188,27 @@ def cbmc_assignment(overlay, name, reasons, timeout_s, mem_gb, log_path):
     def pre():
         resource.setrlimit(resource.RLIMIT_AS, (lim, lim))
 
+    # the CBMC property names of the failed checks (by their description text), so that only those traces are produced
+    want0 = [r.split(" [")[0].strip().strip('"') for r in reasons if r]
+    props = []
+    try:
+        sp = subprocess.run(["cbmc", "--show-properties", binf], capture_output=True, text=True, errors="replace", env=env, timeout=600)
+        cur_name = None
+        for line in sp.stdout.splitlines():
+            if line.startswith("Property "):
+                cur_name = line[len("Property "):].rstrip(":").strip()
+            elif cur_name and "KANI_CHECK_ID" in line and any(w and w in line for w in want0):
+                if ".reachability_check." not in cur_name and ".cover." not in cur_name and cur_name not in props:
+                    props.append(cur_name)
+    except (OSError, subprocess.TimeoutExpired):
+        props = []
+    cmd = ["cbmc"] + CBMC_FLAGS
+    uw = (h.get("attributes") or {}).get("unwind_value")
+    if uw:
+        cmd += ["--unwind", str(uw)]
+    cmd += [binf, "--trace", "--compact-trace"]
+    for pn in props[:3]:
+        cmd += ["--property", pn]
     short = name.split("::")[-1]
     want = [r.split(" [")[0].strip().strip('"') for r in reasons if r]
     sections = []      # (property name, [byte vectors], description text)
@@ -223,7 +239,7 @@ def cbmc_assignment(overlay, name, reasons, timeout_s, mem_gb, log_path):
         finally:
             if p.poll() is None:
                 p.kill()
-        log.write("cbmc text-trace extraction for %s: %d trace sections\n" % (short, len(sections)))
+        log.write("cbmc text-trace extraction for %s: %d trace sections (properties targeted: %s)\n" % (short, len(sections), props[:3]))
     cand = [s for s in sections if ".reachability_check." not in s[0] and ".cover." not in s[0]]
     chosen = None
     for s_ in cand:
